@@ -184,6 +184,10 @@ class SymInt:
         return "<SymInt>"
 
     def __format__(self, spec):
+        import re as _re
+        m = _re.fullmatch(r"0(\d+)x", spec or "")
+        if m:
+            return HexFmt(self, builtins.int(m.group(1)))       # f"{n:08x}": paired view, see sym_unhexlify
         return "<SymInt>"
 
 
@@ -835,6 +839,26 @@ def sym_int(x=0, base=None):
     if base is None:
         return builtins.int(x)
     return builtins.int(x, base)
+
+
+class HexFmt(builtins.str):
+    """result of format(SymInt, "0Nx"): a str (f-strings insist on one) that remembers the integer it renders"""
+    def __new__(cls, v, width):
+        o = builtins.str.__new__(cls, "<symbolic-hex>")
+        o.v, o.width = v, width
+        return o
+
+
+def sym_unhexlify(x):
+    """binascii.unhexlify shadow: unhexlify(f"{n:0Wx}") is the W/2-byte big-endian encoding of n (n < 16**W)"""
+    import binascii
+    if isinstance(x, HexFmt):
+        if x.width % 2:
+            raise binascii.Error("Odd-length string")
+        if not builtins.bool(x.v < 16 ** x.width):
+            raise Escape("hex rendering wider than its field")
+        return be_encode(x.v, x.width // 2)
+    return binascii.unhexlify(x)
 
 
 class HexView:
